@@ -23,7 +23,7 @@
 (* The specification keeps the model image and the tombstone pages, and    *)
 (* computes what recovery must rebuild (DiskImage!Rebuild / Lookup).       *)
 (***************************************************************************)
-EXTENDS DiskImage, Json, IOUtils, TLCExt
+EXTENDS DiskImage, Integers, Json, IOUtils, TLCExt
 
 CONSTANT TombLogOn
 
@@ -134,6 +134,25 @@ TraceNext ==
          [] e.a = "probe" ->
               /\ bad' = ProbeBad(img, tpages, e.res)
               /\ UNCHANGED <<img, tpages, stored, last, acked, written>>
+         [] e.a = "fprobe" ->
+              \* C03: a fault was applied to a copy of the image (the harness re-classified the pages of every
+              \* block it touched, and the tombstone page if that was hit); the copy was opened and every key
+              \* looked up: a value never stored for the key, or a failed / panicking open, is the violation
+              LET RECURSIVE ApplyBlocks(_, _)
+                  ApplyBlocks(im, bs) == IF bs = <<>> THEN im
+                                         ELSE ApplyBlocks(WritePages(im, Head(bs).b, 0, Pages(Head(bs).ps)), Tail(bs))
+                  im == ApplyBlocks(img, e.blocks)
+                  tp == IF e.tp >= 0 THEN [p \in (DOMAIN tpages) \cup {e.tp} |-> IF p = e.tp THEN e.ts ELSE tpages[p]]
+                        ELSE tpages
+                  ix == Rebuild(im, IF TombLogOn THEN Tombs(tp) ELSE {}) IN
+              /\ bad' = UNION {
+                    LET k == KeySeq[i]
+                        r == e.res[i] IN
+                    (IF r = -3 \/ r = -4 THEN {<<"C03", "open_failed_or_panicked", k>>} ELSE {})
+                    \cup (IF r > 0 /\ (r >= 1000000 \/ r \notin stored[k]) THEN {<<"C03", "value_never_stored_for_key", k>>} ELSE {})
+                    \cup (IF r >= 0 /\ r # Lookup(im, ix, k) THEN {<<"drift", "lookup_under_fault", k>>} ELSE {})
+                    : i \in 1 .. Len(KeySeq) }
+              /\ UNCHANGED <<img, tpages, stored, last, acked, written>>
          [] e.a = "tprobe" ->
               \* the first pages of the next block write reached the device before the crash
               /\ bad' = ProbeBad(WritePages(img, e.b, e.o, Pages(e.ps)), tpages, e.res)
@@ -143,6 +162,7 @@ TraceNext ==
 TraceSpec == TraceInit /\ [][TraceNext]_tvars
 
 NoViolation(P) == \A b \in bad : b[1] # P
+NoViolation_C03 == NoViolation("C03")
 NoViolation_C04 == NoViolation("C04")
 NoViolation_C07 == NoViolation("C07")
 NoDrift == \A b \in bad : b[1] # "drift"
